@@ -122,3 +122,33 @@ Example C07_ex_current_constrained :
   basic_gen flags_current 30 (PImp (pphi 0) (and_p (PMVar 1 [3] [] [] [] []) (PEVar 2))) 3
     = Some (Some (PImp (PEx 3 (pphi 0)) (and_p (PMVar 1 [3] [] [] [] []) (PEVar 2)))).
 Proof. vm_compute. repeat split; reflexivity. Qed.
+
+(** ================================================================================================
+    C07_source_*: the theorems stated of the functions GENERATED from the current source
+    (coq/Gen/PyPattern.v, rewritten from pattern.py / basic_interpreter.py on every run by translators/pypattern.py;
+    agreement with the model: coq/Py/GenPyPatternAgree.v). *)
+From Pi2 Require Import Py.GenSupport Gen.PyPattern Py.GenPyPatternAgree Py.SourceFacts.
+Theorem C07_source_agreement_mp : forall n L R, src_modus_ponens n L R = flat (basic_mp flags_current n L R).
+Proof. exact src_modus_ponens_eq. Qed.
+Theorem C07_source_agreement_gen : forall n C x, src_exists_generalization n C x = flat (basic_gen flags_current n C x).
+Proof. exact src_exists_generalization_eq. Qed.
+Theorem C07_source_agreement_inst : forall n C d, src_instantiate_rule n C d = basic_inst flags_current n C d.
+Proof. exact src_instantiate_rule_eq. Qed.
+Theorem C07_source_mp_exact : forall se ss n L R, corner_free se ss L = true -> corner_free se ss R = true ->
+  (dm L one + dm R one <= n)%nat ->
+  forall c', (exists c, src_modus_ponens n L R = Some c /\ corner_free se ss c = true /\ expand flags_current c = c') <->
+             expand flags_current L = Imp (expand flags_current R) c'.
+Proof. exact source_mp_exact. Qed.
+Theorem C07_source_gen_exact : forall se ss n C x, corner_free se ss C = true -> (dm C one <= n)%nat ->
+  forall c', (exists c, src_exists_generalization n C x = Some c /\ corner_free se ss c = true /\ expand flags_current c = c') <->
+             (exists l r, expand flags_current C = Imp l r /\ e_fresh r x = true /\ c' = Imp (Ex x l) r).
+Proof. exact source_gen_exact. Qed.
+Theorem C07_source_inst_exact : forall se ss n C d c, corner_free se ss C = true -> cfd se ss d = true ->
+  src_instantiate_rule n C d = Some c ->
+  expand flags_current c = p_inst flags_current (expand flags_current C) (expand_delta flags_current d).
+Proof. exact source_inst_exact. Qed.
+Print Assumptions C07_source_gen_exact.
+Example C07_source_ex :
+  src_modus_ponens 30 (PImp (neg_p (pphi 0)) (PEVar 2)) (PImp (pphi 0) bot_p) = Some (PEVar 2) /\
+  src_exists_generalization 30 (PImp (pphi 0) (and_p (PEVar 1) (PEVar 2))) 1 = None.
+Proof. vm_compute. split; reflexivity. Qed.
